@@ -34,7 +34,7 @@ ASSUMPTIONS = ['continuation canonicaliser validated differentially on every 16t
 
 
 def BOUNDS(tier):
-    return {'transactions': 2, 'rcpts': 2, 'bodies': 6, 'size_limit': SIZE_LIMIT,
+    return {'transactions': 2, 'rcpts': 2, 'bodies': 7, 'size_limit': SIZE_LIMIT,
             'segmentations': 'all for single-transaction streams + burst/byte/line/1-cut for the rest' if tier == 'quick' else 'all'}
 
 
@@ -45,6 +45,7 @@ BODIES = {
     'cmds': b'QUIT\r\nMAIL FROM:<evil>\r\n.\r\n',
     'x+dot': b'x\r\n.\r\n.\r\n',
     'big': b'A' * 20 + b'\r\nRCPT TO:<evil>\r\n' + b'B' * 20 + b'\r\n.\r\n',
+    'blank-first': b'\r\n\r\nx\r\n \r\n.\r\n',
 }
 
 
@@ -63,7 +64,7 @@ def all_streams():
                 for n1 in (1, 2):
                     t1 = transaction(1, n1, b1)
                     out.append({'size': size, 'stream': b'EHLO c\r\n' + t1 + end, 'ntx': 1, 'desc': [b1, n1]})
-                    for between in (b'', b'RSET\r\n', b'NOOP\r\n'):
+                    for between in (b'', b'RSET\r\n', b'NOOP\r\n', b'  NOOP  \r\n \r\n'):
                         for b2 in BODIES:
                             t2 = transaction(2, 1, b2)
                             out.append({'size': size, 'stream': b'EHLO c\r\n' + t1 + between + t2 + end, 'ntx': 2,
